@@ -125,6 +125,10 @@ def run_history(desc, base, ops, ctx, bm, construct="at_base"):
         except Exception as e:
             ctx.violation(clause, key + "/unreadable", {"exc": repr(e)[:200], "step": step}, hist)
             return False
+        sd = tol.tm_sides_differ(got_tm)
+        if sd is not None and sd[0] > sd[1]:
+            ctx.violation(clause, key + "/six_vector_is_another_pose", {"err": sd[0], "tol": sd[1], "step": step}, hist)
+            return False
         t = ptol(want)
         e = tol.maxabs(G - want)
         ctx.err(clause, e)
